@@ -108,6 +108,14 @@ fn check(t: &mut Tape, ctx: &mut Ctx) -> CheckResult {
         "lax-tensor-type",
         "lax source type of tensor"
     );
+    let mut ty = f.d.target_type();
+    ty.extend(g.d.target_type());
+    ensure!(
+        ctx,
+        crate::labels::unobs(&Arrow::target(&lf.tensor(&lg))) == ty,
+        "lax-tensor-type",
+        "lax target type of tensor"
+    );
 
     let _: (&Diagram, &Lax) = (&f.d, &f);
     let interesting = |l: &Lax| !l.d.edges.is_empty() || !l.d.s.is_empty() || !l.d.t.is_empty();
